@@ -56,6 +56,7 @@ type Run struct {
 	mu          sync.Mutex
 	Rule        string
 	samples     []interface{}
+	sampleW     []int
 	extra       map[string]interface{}
 	counters    map[string]*int64
 	Assumptions []string
@@ -143,11 +144,36 @@ func (r *Run) DistinctCount() int {
 
 // Sample keeps the first few cases verbatim for the evidence file.
 func (r *Run) Sample(s interface{}) {
+	// weight: variety first (distinct ops of a sequence), then length
+	str := fmt.Sprint(s)
+	w := len(str)
+	if w > 99 {
+		w = 99
+	}
+	if parts := strings.Split(str, " ; "); len(parts) > 1 {
+		seen := map[string]bool{}
+		for _, p := range parts {
+			seen[p] = true
+		}
+		w += 100 * len(seen)
+	}
 	r.mu.Lock()
+	defer r.mu.Unlock()
 	if len(r.samples) < 8 {
 		r.samples = append(r.samples, s)
+		r.sampleW = append(r.sampleW, w)
+		return
 	}
-	r.mu.Unlock()
+	// keep the first two as they came; among the others prefer the longer (deeper / richer) cases
+	min := 2
+	for i := 3; i < len(r.samples); i++ {
+		if r.sampleW[i] < r.sampleW[min] {
+			min = i
+		}
+	}
+	if w > r.sampleW[min] && len(str) <= 600 {
+		r.samples[min], r.sampleW[min] = s, w
+	}
 }
 
 func (r *Run) SetExtra(k string, v interface{}) {
